@@ -13,7 +13,18 @@ import (
 	"ivgsa/internal/sym"
 )
 
-func init() { register("C15", ruleC15) }
+func init() { register("C15", ruleC15, ruleC15_6) }
+
+// ruleC15_6: a gradient paint exists for every well-formed gradient: initGradient refuses nothing but invalid stops.
+func ruleC15_6(c *Ctx) {
+	c.R.Rule("C15.6", "every well-formed gradient is painted: initGradient visits the NSTOPS stops named by the gradient colour, reading colour register (CBASE+i) mod 64 and number register (NBASE+i) mod 64, and refuses exactly on a non-premultiplied stop colour, an offset outside [0,1] or a non-increasing offset - there is no other way to lose the paint (no bound on the stop count)", 4)
+	r := c.newRend()
+	if !r.ok {
+		c.R.Unknown("render.(*Renderer).initGradient#validation", "-", "Renderer model not available")
+		return
+	}
+	checkInitGradientValidation(c, r, "C15.6")
+}
 
 func ruleC15(c *Ctx) {
 	R := c.R
@@ -474,7 +485,7 @@ func ruleC15(c *Ctx) {
 	}
 
 	// ---- C15.1 pixel -> gradient matrix ----
-	R.Rule("C15.1", "the matrix handed to Gradient.Init composes the viewBox->gradient matrix in the six number registers with the pixel->viewBox map: pix2Grad*(px,py,1) = M*(unabsX(px), unabsY(py), 1) as an identity in px, py", 2)
+	R.Rule("C15.1", "the matrix handed to Gradient.Init composes the viewBox->gradient matrix in the six number registers with the pixel->viewBox map: pix2Grad*(px,py,1) = M*(unabsX(px), unabsY(py), 1) as an identity in px, py; the composition is done in float64", 3)
 	if ig := c.Method("render", "Renderer", "initGradient", true); ig != nil {
 		r := c.newRend()
 		if r.ok {
@@ -488,6 +499,40 @@ func ruleC15(c *Ctx) {
 			if init == nil || len(init.Args) != 5 || init.Args[3].Op != "agg" || len(init.Args[3].Args) != 6 {
 				R.Bad("render.(*Renderer).initGradient#matrix", c.FPos(ig), "a 2x3 matrix handed to Init", "not found")
 			} else {
+				// precision: the composition is carried out in float64 - the float32 inputs (registers, scale, bias)
+				// are widened before any arithmetic is done on them. (Composing in float32 and widening the result
+				// loses the low bits of the reciprocal pixel scale, which shows as wrong colours at exact offsets.)
+				narrow := ""
+				f32t := types.Typ[types.Float32]
+				pin2 := map[string]*sym.Term{"nReg": sym.Atom("nReg", nil), "cReg": sym.Atom("cReg", nil),
+					"scaleX": sym.Atom("scaleX", f32t), "scaleY": sym.Atom("scaleY", f32t), "biasX": sym.Atom("biasX", f32t), "biasY": sym.Atom("biasY", f32t)}
+				rin2, _, _ := r.run(ig, pin2, "ValidAlphaPremulColor", "DecodeGradient", "Init")
+				var init2 *sym.Event
+				for _, ev := range rin2.Events {
+					if ev.Kind == "opaquecall" && ev.Callee == "Init" {
+						init2 = ev
+					}
+				}
+				var entries []*sym.Term
+				if init2 != nil && len(init2.Args) == 5 && init2.Args[3].Op == "agg" {
+					entries = init2.Args[3].Args
+				} else {
+					narrow = "matrix not found with the transform fields pinned"
+				}
+				for _, e := range entries {
+					sym.Walk(e, func(t *sym.Term) bool {
+						if t.Op == "bin" && t.T != nil {
+							if b, isB := t.T.Underlying().(*types.Basic); isB && b.Kind() == types.Float32 {
+								switch t.Name {
+								case "+", "-", "*", "/":
+									narrow = shortKey(t)
+								}
+							}
+						}
+						return narrow == ""
+					})
+				}
+				R.Check(narrow == "", "render.(*Renderer).initGradient#matrix.float64", c.FPos(ig), "every arithmetic step of the matrix composition is done in float64", "a float32 operation: "+narrow)
 				env := r.env()
 				// name the six matrix registers by their offset from NBASE
 				var regs []*sym.Term
